@@ -256,6 +256,7 @@ def check_C09(ctx, tier):
     G.rule_G_SELFDROP(ctx, ctx.repo)               # which parameters are masked does not depend on whether the call spells its arguments positionally
     G.rule_V_PARTIALSHAPE(ctx, ctx.repo)           # the names values are filed under are those of the callable itself, not of a delegate it happens to keep in `.func`
     G.rule_V_CALLFALLBACK(ctx, ctx.repo)           # ... and a partial is never inspected through partial.__call__ (self, *args, **kwargs)
+    G.rule_V_CODEOBJ(ctx, ctx.repo)                # ... and the names are the ones inspect reports (a __signature__ is honoured), not those of the code object
     G.rule_G(ctx, ctx.repo, want=('G-VAL', 'G-PREC'))
     G.rule_G_STALE(ctx, ctx.repo)
     S.rule_S_IDENT(ctx, ctx.repo, parts=('optional',))   # a partial's fixed None is not taken for an open slot (names would shift for the positional spelling only)
@@ -331,6 +332,7 @@ def check_C11(ctx, tier):
     G.rule_V_TRYRESET(ctx, ctx.repo)               # names and values stay aligned: an object that merely has an `.args` attribute is not taken for a partial
     G.rule_V_PARTIALSHAPE(ctx, ctx.repo)
     G.rule_V_CALLFALLBACK(ctx, ctx.repo)           # ... and a partial is never inspected through partial.__call__ (self, *args, **kwargs)
+    G.rule_V_CODEOBJ(ctx, ctx.repo)                # ... and the names are the ones inspect reports (a __signature__ is honoured), not those of the code object
     S.rule_S_IDENT(ctx, ctx.repo, parts=('optional',))   # ... and an argument a partial fixes to None is not taken for an open position (an optional marker that is None here)
     K.rule_K_OWN(ctx, ctx.repo)                    # the decomposition of the ignore spec does not depend on earlier calls (module-level state)
     K.rule_K_REPR(ctx, ctx.repo)                   # the substitute NULL has a constant repr
@@ -356,6 +358,7 @@ def check_C19(ctx, tier):
     G.rule_V_TRYRESET(ctx, ctx.repo)
     G.rule_V_PARTIALSHAPE(ctx, ctx.repo)
     G.rule_V_CALLFALLBACK(ctx, ctx.repo)           # ... and a partial is never inspected through partial.__call__ (self, *args, **kwargs)
+    G.rule_V_CODEOBJ(ctx, ctx.repo)                # ... and the names are the ones inspect reports (a __signature__ is honoured), not those of the code object
     S.rule_S_IDENT(ctx, ctx.repo, parts=('optional',))   # a fixed argument is told from an open position without mistaking None for a marker
     G.rule_V_DOUBLESTAR(ctx, ctx.repo)             # a keyword the caller repeats overrides the partial's: never forwarded through two ** expansions
     G.rule_V_NAMESHAPE(ctx, ctx.repo)              # keyword names are compared, never judged by their spelling
